@@ -119,6 +119,9 @@ class FakeValues:
 
 
 class FakeDType:
+    isnative = True             # native byte order (other byte orders: real datasets below)
+    byteorder = '='
+
     def __init__(self, name):
         self.name = name
 
@@ -128,8 +131,9 @@ class FakeNumpy:
     values alone; any other order depends on how the array happens to be laid out in memory."""
     counter = 0
 
-    def __init__(self, data):
+    def __init__(self, data, dtype=None):
         self.data = data
+        self.dtype = dtype or FakeDType('float64')
 
     def tobytes(self, order='C'):
         if order == 'C':
@@ -149,7 +153,7 @@ class FakeArray:
         self.chunks = None          # an array held in memory (chunked arrays: real datasets below)
 
     def to_numpy(self):
-        return FakeNumpy(self.g['data'])
+        return FakeNumpy(self.g['data'], self.values.dtype)
 
 
 class _KeyedDataset:
@@ -430,6 +434,53 @@ def real_dataset_checks(tier):
             chunked = ds.chunk({d: 1 for d in ds.dims})
             if key_of(chunked) != k0:
                 V(f'real:{conv}:chunked-everywhere', 'identical geometry values give the same key however the arrays are chunked', 'all dimensions')
+    # attribute values that are arrays (valid_range, flag_values): every element counts, to the last bit
+    for conv in ('cf1d', 'ugrid'):
+        ds = _dataset(conv)
+        g = list(ds.copy().ems.get_all_geometry_names())[0] if conv != 'ugrid' else 'node_x'
+        long = numpy.arange(1500, dtype='float64')
+        long2 = long.copy()
+        long2[750] += 1.0
+        pairs = {'a float element changed in the tenth digit': ('valid_range', numpy.array([-180.0, 180.0]), numpy.array([-180.0, 180.000000001])),
+                 'an element in the middle of a long array': ('flag_values', long, long2),
+                 'an integer element': ('flag_values', numpy.array([1, 2, 4], dtype='int16'), numpy.array([1, 2, 8], dtype='int16')),
+                 'the type of the array': ('valid_range', numpy.array([0, 360], dtype='int32'), numpy.array([0, 360], dtype='int64'))}
+        for name, (attr, v1, v2) in pairs.items():
+            d1, d2 = ds.copy(deep=True), ds.copy(deep=True)
+            d1[g].attrs[attr] = v1
+            d2[g].attrs[attr] = v2
+            try:
+                k1, k1b, k2 = key_of(d1), key_of(d1.copy(deep=True)), key_of(d2)
+            except Exception as e:
+                V(f'real:{conv}:array-attribute', 'a geometry variable with an array-valued attribute can be keyed', f'{name}: {type(e).__name__}: {e}')
+                continue
+            if k1 != k1b:
+                notes.append(f'{conv}: array attribute keys differ between equal copies ({name})')
+            elif k1 == k2:
+                V(f'real:{conv}:array-attribute:{name}', 'a single edit of a geometry variable changes the cache key', f'{attr}: {name}')
+    # geometry arrays in the other byte order: keyed like any other array - again and again, and left as they were
+    for conv in ('cf2d', 'ugrid'):
+        ds = _dataset(conv)
+        g = [n for n in ds.copy().ems.get_all_geometry_names() if ds[n].dtype == numpy.dtype('float64')][0]
+        swapped = ds.copy(deep=True)
+        other = '>f8' if numpy.dtype('float64').byteorder in '=<' and sys.byteorder == 'little' else '<f8'
+        swapped[g] = ds[g].copy(data=ds[g].values.astype(other))
+        if g in ds.coords:
+            swapped = swapped.set_coords(g)
+        before = numpy.array(swapped[g].values, dtype='float64')
+        ka = make_cache_key_direct(swapped)
+        kb = make_cache_key_direct(swapped)
+        after = numpy.array(swapped[g].values, dtype='float64')
+        if ka != kb:
+            V(f'real:{conv}:other-byte-order', 'keying the same dataset twice gives the same key', f'{g} stored as {other}')
+        if not numpy.array_equal(before, after, equal_nan=True):
+            V(f'real:{conv}:other-byte-order', 'identical geometry values give the same key (the values are still what they were after keying)', f'{g} stored as {other}')
+        rebuilt = ds.copy(deep=True)
+        rebuilt[g] = ds[g].copy(data=ds[g].values.astype(other))
+        if g in ds.coords:
+            rebuilt = rebuilt.set_coords(g)
+        if make_cache_key_direct(rebuilt) != ka:
+            V(f'real:{conv}:other-byte-order', 'identical datasets get the same key whichever was keyed first', f'{g} stored as {other}')
     # a dataset derived from one that has been hashed before is keyed by what it holds
     for conv in ('cf1d', 'cf2d', 'ugrid'):
         ds = _dataset(conv)
